@@ -202,6 +202,22 @@ impl ConciseFreeResources {
     }
 }
 
+#[cfg(feature = "verif")]
+impl ConciseResourceState {
+    /// Per group: (free whole units, (index, free fractions)) (verification hook)
+    pub(crate) fn verif_groups(&self) -> Vec<(u32, Vec<(u32, u32)>)> {
+        self.free
+            .iter()
+            .map(|g| {
+                let mut fr: Vec<(u32, u32)> =
+                    g.fractions.iter().map(|(i, f)| (i.as_num(), *f)).collect();
+                fr.sort_unstable();
+                (g.units, fr)
+            })
+            .collect()
+    }
+}
+
 #[cfg(test)]
 mod tests {
     use crate::Map;
